@@ -375,6 +375,7 @@ func VsymC16Install() {
 	_, _, err := mgr.Install(context.Background(), CLIInstallOptions{PluginPath: path, Overwrite: vr.Choice("overwrite", 2) == 1})
 	if !c16SingleElement(name) {
 		vr.Assert(err != nil, "a source whose file name yields a name that is not a single path element is refused")
+		vr.Assert(len(ex.runs) == 0, "... before anything is executed: the source executable is not run to ask for its metadata")
 		vr.Assert(fskit.SameTree(before, fskit.Tree(base+"/top")), "... and nothing at or around the plugin root changes")
 		vr.Reach("install refused by name")
 		return
